@@ -809,27 +809,30 @@ RECURSIVE ProcRun(_, _, _, _)
 ProcRun(ps, cls, data, fuel) ==
     LET r == IF UseMode(ps, "Character", None) THEN Chars(ps, ps.mode, cls, data) ELSE ForeignChars(ps, cls, data)
     IN IF r.re /\ fuel > 0 THEN ProcRun(NoRe(r), cls, data, fuel - 1) ELSE r
-RECURSIVE NonNulLen(_)
-NonNulLen(s) == IF s = <<>> \/ s[1] = 0 THEN 0 ELSE 1 + NonNulLen(Tail(s))
-RECURSIVE ProcChars(_, _)
-ProcChars(ps, data) ==
+\* data = the characters of one (merged) Character token; bks = the positions at which html5lib starts a new
+\* Characters / SpaceCharacters token (always contains 1); off = position of data[1] within the whole token
+RECURSIVE NextBoundary(_, _, _)
+NextBoundary(bks, pos, total) ==       \* the first boundary position > pos, or total + 1
+    IF bks = <<>> THEN total + 1 ELSE IF bks[1] > pos THEN bks[1] ELSE NextBoundary(Tail(bks), pos, total)
+RECURSIVE ProcCharsAt(_, _, _, _, _)
+ProcCharsAt(ps, data, bks, off, total) ==
     IF data = <<>> THEN ps
     ELSE LET cls == Cls(data[1])
-             \* html5lib hands over whole Characters tokens: in the frameset modes a token that starts with a non-space
-             \* character is ignored together with the whitespace inside it (named deviation; token = up to the next NUL,
-             \* character references are not distinguished here: the explored frameset alphabets contain none)
+             \* html5lib hands over whole Characters tokens: in the modes that ignore non-space characters a token that
+             \* starts with a non-space character is ignored together with the whitespace inside it (named deviation)
              swallow == /\ cls = "ch" /\ ~Std("tc-chars-token-granularity")
                         /\ (ps.mode \in {"inFrameset", "afterFrameset", "afterAfterFrameset"}
                             \/ (ps.mode = "inColumnGroup" /\ CurName(ps) = N_html))
                         /\ UseMode(ps, "Character", None)
-             k == IF swallow THEN NonNulLen(data) ELSE RunLen(data, cls)
-         IN ProcChars(ProcRun(ps, cls, SubSeq(data, 1, k), 8), SubSeq(data, k + 1, Len(data)))
+             k == IF swallow THEN NextBoundary(bks, off, total) - off ELSE RunLen(data, cls)
+         IN ProcCharsAt(ProcRun(ps, cls, SubSeq(data, 1, k), 8), SubSeq(data, k + 1, Len(data)), bks, off + k, total)
+ProcChars(ps, data, bks) == ProcCharsAt(ps, data, bks, 1, Len(data))
 RECURSIVE ProcEof(_, _)
 ProcEof(ps, fuel) == LET r == EofIn(ps, ps.mode) IN IF r.re /\ fuel > 0 THEN ProcEof(NoRe(r), fuel - 1) ELSE r
 
-TreeStep(ps, tok, QT) ==
+TreeStep(ps, tok, bks, QT) ==
     LET p0 == [ps EXCEPT !.tokReq = ""] IN
-    IF tok.t = "Character" THEN ProcChars(p0, tok.d) ELSE ProcTok(p0, tok, QT, 8)
+    IF tok.t = "Character" THEN ProcChars(p0, tok.d, bks) ELSE ProcTok(p0, tok, QT, 8)
 TreeEof(ps) == ProcEof(ps, 8)
 
 \* the parser's internal state after the parse, as far as the real parser object still exposes it (names, not nodes)
